@@ -63,6 +63,7 @@ package parser
 //@   safe
 
 //@ spec func onlyMarker(cs []comments.Comment, n int, t comments.Type) bool = forall i int :: 0 <= i && i < n && isMarker(cs[i].Type) ==> cs[i].Type == t
+//@ spec func hasTypeN(cs []comments.Comment, n int, t comments.Type) bool = exists i int :: 0 <= i && i < n && cs[i].Type == t
 //@ spec func anyMarker(cs []comments.Comment, n int) bool = exists i int :: 0 <= i && i < n && isMarker(cs[i].Type)
 //@ spec func allBlank(r *ContentReader) bool = forall i int :: 0 <= i && i < len(r.buf) ==> blank(r.buf[i])
 //@ spec func rep(r *ContentReader) bool = (r.inBegin ==> r.skipNext && !r.autoReset) && (!r.inBegin && r.skipNext ==> r.autoReset || r.skipAll)
@@ -81,6 +82,10 @@ package parser
 //@   loop 1 invariant found && onlyMarker(lc, iter, comments.IgnoreEndType) ==> skip == skipEnd
 //@   loop 1 invariant found && onlyMarker(lc, iter, comments.IgnoreNextLineType) ==> skip == skipNextLine
 //@   loop 1 invariant len(lc) == 0 ==> len(r.comments) == old(len(r.comments))
+//@   loop 1 invariant found ==> skip == skipFile || skip == skipCurrentLine || skip == skipBegin || skip == skipEnd || skip == skipNextLine
+//@   loop 1 invariant found && skip == skipFile ==> hasTypeN(lc, iter, comments.IgnoreFileType)
+//@   loop 1 invariant found && skip == skipNextLine ==> hasTypeN(lc, iter, comments.IgnoreNextLineType)
+//@   loop 1 invariant found && skip == skipEnd ==> hasTypeN(lc, iter, comments.IgnoreEndType)
 //
 // --- live lines (not excluded by state): markers act, text is kept
 //@   ensures r.buf == old(r.buf) && len(r.buf) == old(len(r.buf))
@@ -103,9 +108,17 @@ package parser
 //@              r.skipNext == (old(r.skipNext) && !old(r.autoReset)) && r.autoReset == old(r.autoReset) && len(r.comments) == old(len(r.comments))
 //@   ensures !old(r.skipAll) && old(r.inBegin) && rep(old(r)) && anyMarker(lc, len(lc)) && onlyMarker(lc, len(lc), comments.IgnoreEndType) ==> !r.inBegin && !r.skipNext && !r.skipAll
 //@   ensures !old(r.skipAll) && old(r.skipNext) && !(old(r.inBegin) && hasType(lc, comments.IgnoreEndType)) ==> allBlank(r)
-//@   ensures !old(r.skipAll) && old(r.inBegin) && old(r.skipNext) && !old(r.autoReset) && !hasType(lc, comments.IgnoreEndType) ==>
+//@   ensures !old(r.skipAll) && old(r.inBegin) && old(r.skipNext) && !old(r.autoReset) && !hasType(lc, comments.IgnoreEndType) &&
+//@              (hasType(lc, comments.IgnoreNextLineType) || hasType(lc, comments.IgnoreFileType)) ==>
 //@              r.inBegin && r.skipNext && !r.autoReset && !r.skipAll
 //@   ensures !old(r.skipAll) && old(r.skipNext) && !(old(r.inBegin) && hasType(lc, comments.IgnoreEndType)) ==> len(r.comments) == old(len(r.comments))
+// (the clause above restricted to next-line / file markers is a KNOWN FINDING; for every other excluded line inside a block the block goes on)
+//@   ensures !old(r.skipAll) && old(r.inBegin) && old(r.skipNext) && !old(r.autoReset) && !hasType(lc, comments.IgnoreEndType) &&
+//@              !hasType(lc, comments.IgnoreNextLineType) && !hasType(lc, comments.IgnoreFileType) ==>
+//@              r.inBegin && r.skipNext && !r.autoReset && !r.skipAll
+// a line excluded by a pending ignore/next-line consumes it, also when it carries an ignore/line marker of its own
+//@   ensures !old(r.skipAll) && old(r.skipNext) && old(r.autoReset) && !old(r.inBegin) && anyMarker(lc, len(lc)) && onlyMarker(lc, len(lc), comments.IgnoreLineType) ==>
+//@              !r.skipNext && !r.inBegin && !r.skipAll
 
 // The line table used later for positions is taken from the text *after* exclusion (blanking), so excluded text
 // cannot leak into positions.
